@@ -97,7 +97,7 @@ def run(R):
     R.cov['backend_histogram'] = tags
     run_mc(R, 'CTLS', cs, alias_every=3)
     long_structures(R, 'C03', 'CTLS')
-    run_mc(R, 'CTLS', dense_cases(R.rng, 3000 if R.thorough else 150, 'CTLS'), label='_dense')
+    run_mc(R, 'CTLS', dense_cases(R.rng, 4000 if R.thorough else 500, 'CTLS'), label='_dense')
     # two different quantified subformulas whose printed forms share a long prefix (fresh-name / memo keys must tell them apart)
     run_mc(R, 'CTLS', long_prefix_cases(R.rng, 3000 if R.thorough else 300), label='_long_common_prefix', alias_every=0)
     # or/and nodes with 3-5 (or 1) operands, each a distinct temporal (possibly quantified) formula
